@@ -163,7 +163,7 @@ def run_history(rng, counters, digests, samples, violations, known, world_ops=No
                 phase = "frozen"
             elif op[0] == "unfreeze":
                 phase = "post"
-            if op[0] not in ("freeze", "unfreeze", "refreeze", "reunfreeze", "clone", "copy_expr_from") and not (phase == "frozen" and graph_changing(op, hg.shadow)):
+            if op[0] not in ("freeze", "unfreeze", "refreeze", "reunfreeze", "clone", "copy_expr_from", "reregister") and not (phase == "frozen" and graph_changing(op, hg.shadow)):
                 hg.shadow.apply(op)
                 exp = hg.shadow.all_expected()
             else:
@@ -190,6 +190,9 @@ def run_history(rng, counters, digests, samples, violations, known, world_ops=No
                     op, exp, pre_shadow = [rng.choice(["refresh", "verify", "cleanup", "clone"])], None, hg.shadow
                 elif x < 0.12:
                     op, exp, pre_shadow = ["copy_expr_from"], None, hg.shadow
+                elif x < 0.17:
+                    # a task object that is already in place (the manager's own, or the equal one of a clone) is handed to register()
+                    op, exp, pre_shadow = ["reregister", rng.randrange(1000), rng.choice(["own", "clone"])], None, hg.shadow
                 else:
                     op, exp, pre_shadow = gen_op({"load": 0.06, "leafval": 0.35, "val": 0.12})
                     if op is None:
@@ -223,6 +226,38 @@ def run_history(rng, counters, digests, samples, violations, known, world_ops=No
         # ---- frozen phase ----------------------------------------------------------------
         counters["frozen_calls_checked"] = counters.get("frozen_calls_checked", 0) + 1
         m = ls.runner.mgr
+        if op[0] == "reregister":
+            # Re-registering a task that is already registered: either refused (ValueError) or, if an implementation
+            # accepts it as "nothing to do", it must then really change NOTHING -- index multiplicities included.
+            src = m if op[2] == "own" else m.clone()
+            tids = sorted(src.tasks, key=str)
+            if not tids:
+                continue
+            task = src.tasks[tids[op[1] % len(tids)]]
+            mult = lambda: {n: {str(k): sorted((str(a), c) for a, c in v.items()) for k, v in getattr(m, n).items() if len(v)}
+                            for n in ("rdeps", "rtasks", "deptasks", "tartasks")}
+            b_m, b_c = mult(), {k: canon(v) for k, v in ls.runner.contents().items()}
+            del C.EVENTS[:]
+            try:
+                m.register(task)
+                counters["reregister_accepted"] = counters.get("reregister_accepted", 0) + 1
+            except ValueError:
+                counters["rejected_graph_changes"] = counters.get("rejected_graph_changes", 0) + 1
+                rejected += 1
+            except Exception as e:
+                report("frozen register(<task already in place>) raised %s instead of ValueError: %s" % (type(e).__name__, str(e)[:200]))
+                return
+            if mult() != b_m:
+                report("while frozen, register() of a task that is already in place (%s, %s) changed the index multiplicities" % (task.taskid, op[2]))
+                return
+            if {k: canon(v) for k, v in ls.runner.contents().items()} != b_c or any(e[0] in ("w", "run") for e in C.EVENTS):
+                report("while frozen, register() of a task that is already in place wrote to containers or ran tasks")
+                return
+            d = diff_obs(snap, observe(ls.runner, hg.locs))
+            if d:
+                report("while frozen, after register(<task already in place>): %s" % d)
+                return
+            continue
         if op[0] in ("refresh", "verify", "cleanup", "clone", "copy_expr_from") or graph_changing(op, pre_shadow):
             if op[0] not in ("refresh", "verify", "cleanup", "clone", "copy_expr_from"):
                 hg.shadow = pre_shadow      # the rejected op never happened
